@@ -41,9 +41,12 @@ CLAIMS = {
              "Terminal::encode for each of the 30 fragments (extracted symbolically) equals the specification's; "
              "Miniscript::script_size is the length homomorphism of that template (script_num_size, Ctx::pk_len tables); "
              "the lexer's table over all 256 opcodes: totality over the encoder's alphabet, fused-VERIFY splitting, "
-             "non-minimal VERIFY rejection, push classes, minimal non-negative numbers.",
+             "non-minimal VERIFY rejection, push classes, minimal non-negative numbers; decode . encode = id (as scripts) on a "
+             "family of ~90 miniscripts covering every fragment, both contexts and every number-push width, by evaluating "
+             "lexer + decoder on the specification's script.",
         note="Trusted: spec/script.py (opcode bytes, templates); models of bitcoin::script::Builder::push_* (token "
-             "constructors) and read_scriptint; rustc THIR. Decoder state machine only partially covered.",
+             "constructors), the instruction iterator and read_scriptint; rustc THIR. The decoder is covered on the family, "
+             "not on all scripts.",
         tech=STATIC + "symbolic template extraction + linear-form comparison of size terms + exhaustive lexer decision table",
         engine="symx+tablex"),
     "C07": dict(
@@ -206,6 +209,26 @@ CLAIMS["C18"] = dict(
          "wider policies are not enumerated.",
     tech=STATIC + "bounded-exhaustive abstract evaluation of the policy algorithms' THIR compared with a truth-table oracle",
     engine="tablex")
+
+CLAIMS["C11"] = dict(
+    cat="other",
+    text="A bounded search for reachable panics plus two structural rules; not a proof of panic freedom. The untrusted-"
+         "input entry points are evaluated from their typed syntax trees (the evaluator panics where the compiled code "
+         "would: unwrap / expect, indexing and slicing, checked arithmetic, explicit panics) on adversarial families: "
+         "~9k malformed texts through the Descriptor / Miniscript / policy / expression parsers (every single-character "
+         "deletion, structural insertion and truncation of valid texts, degenerate arities, huge / zero / signed "
+         "numbers, non-ASCII, stray separators and checksums, deep nesting); every short and truncated witness stack "
+         "through the interpreter for ~60 scripts; every single-instruction mutation of ~90 scripts and all tiny "
+         "scripts through lexer + decoder; PSBT preimage look-ups of wrong length. Structural: the parser's depth "
+         "pre-check (402 accepted, 403 refused) dominates tree construction; every recursive cycle of the MIR call "
+         "graph reachable from an entry point consists of audited functions whose depth that pre-check (or "
+         "from_ast's tree-height check) bounds.",
+    note="Trusted: the evaluator's panic semantics and std models; rust-bitcoin models. Descriptor key-expression "
+         "parsing (xpub / origin / derivation paths), the planner and allocation sizes are not searched; absence of a "
+         "report on the families is not absence of panics.",
+    tech=STATIC + "bounded abstract evaluation of entry points' THIR over adversarial input families (panic = report); "
+                  "MIR call-graph SCC audit; must-pass-through of the depth pre-check",
+    engine="tablex+cfgq")
 
 NA = {
     "C15": "commitment arithmetic over hashes with shape-dependent index arithmetic: no sound structural argument in "
